@@ -464,6 +464,7 @@ func shutSchedConfigs() ([]sched.Config, func(string) *sched.Config) {
 			return w
 		}})
 	}
+	out = append(out, fatalAcceptConfigs("C06")...)
 	// client
 	for _, et := range []bool{false, true} {
 		et := et
